@@ -91,11 +91,27 @@ var sBenches = []string{"Encode", "Decode/size=1", "Sort", "Hash-8"}
 // spellings of one instant in the two accepted formats
 func sSpellings(t time.Time) []string {
 	t = t.UTC()
+	est := time.FixedZone("", -5*3600)
+	ist := time.FixedZone("", 5*3600+1800)
+	if t.Nanosecond() != 0 {
+		// only the RFC 3339 family can express a fraction of a second
+		return []string{t.Format(time.RFC3339Nano), t.Format("2006-01-02T15:04:05.000000000Z"), t.Format("2006-01-02T15:04:05.000000000+00:00"),
+			t.In(est).Format(time.RFC3339Nano), t.In(ist).Format("2006-01-02T15:04:05.000000000-07:00")}
+	}
 	out := []string{t.Format("20060102T150405"), t.Format(time.RFC3339), t.Format("2006-01-02T15:04:05+00:00"),
 		t.Format("2006-01-02T15:04:05.000+00:00"), t.Format("2006-01-02T15:04:05.000000000Z")}
-	est := time.FixedZone("", -5*3600)
-	out = append(out, t.In(est).Format(time.RFC3339), t.In(time.FixedZone("", 5*3600+1800)).Format("2006-01-02T15:04:05.00-07:00"))
+	out = append(out, t.In(est).Format(time.RFC3339), t.In(ist).Format("2006-01-02T15:04:05.00-07:00"))
 	return out
+}
+
+// sNorm is the documented normal form: UTC, fixed +00:00 offset, fraction without trailing zeros.
+func sNorm(t time.Time) string {
+	t = t.UTC()
+	out := t.Format("2006-01-02T15:04:05")
+	if ns := t.Nanosecond(); ns != 0 {
+		out += strings.TrimRight(fmt.Sprintf(".%09d", ns), "0")
+	}
+	return out + "+00:00"
 }
 
 func sGenSet(T *sim.Tape, allowNoDen bool) *sSet {
@@ -104,7 +120,11 @@ func sGenSet(T *sim.Tape, allowNoDen bool) *sSet {
 	np := 1 + T.Intn(4, "npoints")
 	denHashes := []string{"base1", "base2"}
 	for i := 0; i < np; i++ {
-		p := sPoint{at: base.Add(time.Duration(i*37+T.Intn(30, "pt-jitter")) * time.Hour), numHash: fmt.Sprintf("tip%d", i), denHash: denHashes[T.Intn(2, "denhash")]}
+		at := base.Add(time.Duration(i*37+T.Intn(30, "pt-jitter")) * time.Hour)
+		if T.Intn(6, "pt-fraction") == 0 {
+			at = at.Add(time.Duration(1+T.Intn(999, "pt-ms")) * time.Millisecond)
+		}
+		p := sPoint{at: at, numHash: fmt.Sprintf("tip%d", i), denHash: denHashes[T.Intn(2, "denhash")]}
 		if allowNoDen && T.Intn(8, "noden") == 0 {
 			p.noDen = true
 		}
@@ -127,7 +147,29 @@ func sGenSet(T *sim.Tape, allowNoDen bool) *sSet {
 		k := 1 + T.Intn(4, "nexp")
 		for j := 0; j < k; j++ {
 			e := len(s.exps)
-			s.exps = append(s.exps, base.Add(time.Duration(1000+e*13)*time.Hour+time.Duration(T.Intn(3600, "exp-jitter"))*time.Second))
+			at := base.Add(time.Duration(1000+e*13)*time.Hour + time.Duration(T.Intn(3600, "exp-jitter"))*time.Second)
+			switch T.Intn(6, "exp-fraction") {
+			case 0:
+				at = at.Add(time.Duration(1+T.Intn(999, "exp-ms")) * time.Millisecond)
+			case 1:
+				if e > 0 {
+					// a re-run within a second of the previous experiment, before or after it
+					d := time.Duration(1+T.Intn(400, "exp-close-ms")) * time.Millisecond
+					if T.Bool("exp-close-before") {
+						d = -d
+					}
+					at = s.exps[e-1].Add(d)
+				}
+			}
+			for again := true; again; {
+				again = false
+				for _, o := range s.exps {
+					if o.Equal(at) {
+						at, again = at.Add(time.Microsecond), true // experiment instants are distinct
+					}
+				}
+			}
+			s.exps = append(s.exps, at)
 			pts := []int{pi}
 			if !s.points[pi].noDen && T.Intn(4, "shared-baseline") == 0 {
 				for pj := range s.points {
@@ -390,7 +432,7 @@ func (s *sSet) modelDump(withTable bool, policy int) string {
 					hasAny = true
 					ser, _ := NormalizeDateString(s.pspell[pi])
 					_ = ser
-					serS := s.points[pi].at.UTC().Format(RFC3339NanoNoZ)
+					serS := sNorm(s.points[pi].at)
 					sers[serS] = true
 					dh := s.points[pi].denHash
 					if !hasDen {
@@ -402,7 +444,7 @@ func (s *sSet) modelDump(withTable bool, policy int) string {
 					}
 					key := [2]string{bench, serS}
 					c := cells[key]
-					date := s.exps[e].UTC().Format(RFC3339NanoNoZ)
+					date := sNorm(s.exps[e])
 					switch {
 					case c == nil:
 						cells[key] = &cell{num: append([]float64(nil), num...), den: append([]float64(nil), den...), hasDen: hasDen, date: date, latest: s.exps[e]}
@@ -831,7 +873,7 @@ var c18Engine = &sim.Engine{
 		"input invariants of real bent data (DESIGN.md A.4): series stamp <-> numerator hash one-to-one, denominator hash a function of the series stamp, distinct experiment instants, every stamp parses",
 		"under COMBINE every trial has a denominator (a point lacking one makes AllComparisonSeries dereference a nil cell whatever the order; recorded in DESIGN.md, not part of the property)",
 		"the hash pair of a series point carries the denominator hash as soon as one of its trials has baseline measurements (REPLACE lanes mix experiments with and without a baseline)",
-		"confidence >= 0.5, resample counts >= 50, positive measurements; timestamps are the workload's own (the timestamp input space is not swept)",
+		"confidence >= 0.5, resample counts >= 50, positive measurements; timestamps are the workload's own, whole seconds or with a fraction, some experiments within one second of each other (the timestamp input space is not swept)",
 	},
 	Real: []string{"benchseries.Builder.Add/AddFiles/AllComparisonSeries/AddSummaries, NormalizeDateString", "benchfmt.Reader/Files", "benchproc projections"},
 	Stub: []string{"hash-map iteration order in benchseries (verifsim.Map)", "order of adding results and file split points (tape)"},
